@@ -2,9 +2,12 @@
 
    Go code mirrored (network/tcp.go, network/router.go), for ONE registered TCP connection
    with its handleConn goroutine, any number of Send calls on it and one Stop:
-     TCPConn.Send  : sendMutex.Lock(); write the frame to the socket; sendMutex.Unlock()
+     TCPConn.Send  : sendMutex.Lock(); write the frame to the socket; if the write failed,
+                     c.Close() (e91db58: part of the frame may be on the wire);
+                     sendMutex.Unlock()
                      - the write blocks while the peer does not read and the buffers are
-                       full, and fails at once when the socket is closed
+                       full, fails at once when the socket is closed, and fails when the
+                       write deadline expires (WDeadline, a timer = environment)
      TCPConn.Close : closedMut.Lock(); conn.Close(); closed = true      (no sendMutex)
      Router.Stop   : host.Stop(); Lock(); isClosed = true; close every connection; Unlock();
                      wg.Wait()
@@ -51,13 +54,14 @@ Inductive waction :=
 | WCall | PeerStall | PeerRead | SCall
 (* Send i *)
 | WLock (i : nat) | WOk (i : nat) | WErr (i : nat)
+| WDeadline (i : nat)     (* the write deadline of a blocked write expires (timer) *)
 (* Stop *)
 | SClose | SWaitDone
 (* handleConn *)
 | RdErr | RdChk | RdExit.
 
 Definition internal (a : waction) : bool :=
-  match a with WCall | PeerStall | PeerRead | SCall => false | _ => true end.
+  match a with WCall | PeerStall | PeerRead | SCall | WDeadline _ => false | _ => true end.
 
 Definition wstep (ctm : bool) (s : wstate) (a : waction) : option wstate :=
   match a with
@@ -85,8 +89,17 @@ Definition wstep (ctm : bool) (s : wstate) (a : waction) : option wstate :=
       end
   | WErr i =>
       match nth_error (writers s) i with
-      | Some WWrite => if sock s then None
+      | Some WWrite => if sock s || ctm then None              (* variant: the Send's own c.Close() waits for the sendMutex it holds *)
                        else Some (mkW (sock s) false (rlock s) (stalled s) (upd (writers s) i (WDone Err)) (stopper s) (reader s) (wgw s))
+      | _ => None
+      end
+  | WDeadline i =>
+      (* the failed Send closes the socket itself; TCPConn.Close takes closedMut only, so the
+         sendMutex this Send holds is no obstacle - in the variant it is *)
+      match nth_error (writers s) i with
+      | Some WWrite => if sock s && stalled s && negb ctm
+                       then Some (mkW false false (rlock s) (stalled s) (upd (writers s) i (WDone Err)) (stopper s) (reader s) (wgw s))
+                       else None
       | _ => None
       end
   | SClose =>
